@@ -1,7 +1,13 @@
 use crate::DbError;
 use crate::utilities::serialize::Serialize;
 use crate::utilities::serialize::SerializeStatic;
+#[cfg(all(agdb_verif, kani))]
+use crate::verif_fs::File;
+#[cfg(all(agdb_verif, kani))]
+use crate::verif_fs::OpenOptions;
+#[cfg(not(all(agdb_verif, kani)))]
 use std::fs::File;
+#[cfg(not(all(agdb_verif, kani)))]
 use std::fs::OpenOptions;
 use std::io::Read;
 use std::io::Seek;
@@ -138,4 +144,11 @@ mod tests {
             "\\some\\path\\.file"
         );
     }
+}
+
+// Verification hook (inactive unless built with `--cfg agdb_verif` under Kani).
+#[cfg(all(agdb_verif, kani))]
+#[allow(unused, dead_code, clippy::all)]
+pub(crate) mod verif_h {
+    include!(concat!(env!("AGDB_VERIF_HARNESS"), "/write_ahead_log_h.rs"));
 }
